@@ -95,8 +95,8 @@ def gen_dataset(rng, prof):
                 w = rng.choice([0, 30, 60, 120, 180, 300, 600, rng.randint(1, 900)])
                 dist = rng.randint(0, 1200)
                 fp[a].append((b, w, dist))
-                if rng.chance(0.8):
-                    w2 = w if rng.chance(0.7) else rng.randint(1, 900)
+                if rng.chance(prof.get("pback", 0.8)):
+                    w2 = w if rng.chance(1.0 - prof.get("asym", 0.3)) else rng.randint(1, 900)
                     fp[b].append((a, w2, dist))
     d.fp = fp
     rfp = {}
@@ -387,6 +387,10 @@ PROFILES = {
     # next to ordinary ones, request waiting times well above 0, departures close together
     "mixedwait": dict(pos_hops=True, transferable=True, ptransferable=0.45, nmin=3, nmax=6, lmax=5, tmax=3, loops=0.2, forbid=0.05,
                       pfp=0.3, minws=[180, 300, 300, 600, 60], maxfws=[-1, -1, -1, -1, 600]),
+    # dense, mostly ASYMMETRIC footpaths (A->B and B->A differ, or only one direction exists): journeys that transfer on
+    # foot, so that forward and reverse footpath lists are both exercised (loader: reverse lists are derived)
+    "asymfp": dict(pos_hops=True, transferable=False, nmin=4, nmax=7, lmax=5, tmax=3, loops=0.1, forbid=0.05, pfp=0.55,
+                   pback=0.6, asym=0.85, maxfws=[-1, -1, -1, -1, 600]),
     # zero-time hops and zero waiting (termination)
     "zero": dict(pos_hops=False, transferable=False, nmin=3, nmax=5, lmax=4, loops=0.4, forbid=0.05, pfp=0.3,
                  grid=300, minws=[0, 0, 300]),
